@@ -4,9 +4,10 @@ Every seam is a module-level name rig already reads (``socket``, ``select``,
 ``time``, ``random``, ``open``) - no source hook in /repo is needed.
 """
 import importlib
+import os
 import sys
 
-RIG_ROOT = "/repo"
+RIG_ROOT = os.environ.get("VERIF_REPO", "/repo")
 
 
 def ensure_rig_path():
